@@ -89,6 +89,11 @@ EofDrift(e) == ~eof /\ ~err /\ e.o = n /\ pos = n /\ e.l = line /\ e.c = col + D
 \* DevUnterminatedComment: the text after an unterminated `/*` is not tokenised at all
 EofInComment(e) == ~eof /\ ~err /\ depth > 0 /\ pos < n /\ e.o = n
 
+\* DevBackslashEndOfInterpolation: a `\` that is the last byte of the input inside a string interpolation (`"\(a \`) is
+\* not covered by any token, and the EOF token (and the parser's error) stand at offset n+1, outside the input
+EofPastEnd(e) == ~eof /\ ~err /\ n > 0 /\ pos = n - 1 /\ Byte(inp, n - 1) = 92 /\ e.o = n + 1
+PosPastEnd(p) == ~big /\ n > 0 /\ Byte(inp, n - 1) = 92 /\ p[1] = n + 1
+
 \* ---- diagnostics: positions inside the input, line/column the function of the offset
 DriftAt(o) == LET ls == LineStart(inp, o) IN Cardinality({p \in dpts : ls <= p /\ p <= o})
 PosExact(p) == p[1] >= 0 /\ p[1] <= n /\ (~big => LineColAt(inp, p[1]) = <<p[2], p[3]>>)
@@ -117,12 +122,13 @@ Step(e) ==
     [] e.ev = "Tok" /\ e.t = "EOF" ->
          IF EofExact(e) THEN eof' = TRUE /\ UNCHANGED <<inp, pos, line, col, hist, big, n, err, depth, drift, dpts, skip>>
          ELSE IF EofDrift(e) THEN Dev(DriftName) /\ eof' = TRUE /\ UNCHANGED <<inp, pos, line, col, hist, big, n, err, depth, drift, dpts, skip>>
+         ELSE IF EofPastEnd(e) THEN Dev("DevBackslashEndOfInterpolation") /\ eof' = TRUE /\ UNCHANGED <<inp, pos, line, col, hist, big, n, err, depth, drift, dpts, skip>>
          ELSE IF EofInComment(e) THEN Dev("DevUnterminatedComment") /\ eof' = TRUE /\ UNCHANGED <<inp, pos, line, col, hist, big, n, err, depth, drift, dpts, skip>>
          ELSE Reject
     [] e.ev = "Diag" ->
          IF \A i \in DiagIdx(e) : PosExact(e.pos[i]) THEN Same /\ UNCHANGED skip
-         ELSE IF \A i \in DiagIdx(e) : PosExact(e.pos[i]) \/ PosDrift(e.pos[i]) \/ PosErrTok(e.pos[i])
-              THEN Dev(IF \E i \in DiagIdx(e) : ~PosExact(e.pos[i]) /\ ~PosDrift(e.pos[i]) THEN "DevErrMultiByte"
+         ELSE IF \A i \in DiagIdx(e) : PosExact(e.pos[i]) \/ PosDrift(e.pos[i]) \/ PosErrTok(e.pos[i]) \/ PosPastEnd(e.pos[i])
+              THEN Dev(IF \E i \in DiagIdx(e) : ~PosExact(e.pos[i]) /\ PosPastEnd(e.pos[i]) THEN "DevBackslashEndOfInterpolation" ELSE IF \E i \in DiagIdx(e) : ~PosExact(e.pos[i]) /\ ~PosDrift(e.pos[i]) THEN "DevErrMultiByte"
                        ELSE IF dpts = {} THEN "DevMultiByteEnd" ELSE DriftName) /\ Same /\ UNCHANGED skip
          ELSE Reject
     [] OTHER -> Reject
